@@ -254,3 +254,39 @@ func judgeAbsent(c AbsentCase, o *vh.Obs) {
 	judgeMutant(MutCase{Doc: c.Doc, Envelope: c.Envelope, Ops: []Op{op}}, o)
 	o.Class("absent-member")
 }
+
+// fuzzSeedsFromSchemas gives the fuzzer one small document per published type
+// with every declared member present (lists with one element), so that
+// coverage-guided mutation starts next to code no example reaches.
+func fuzzSeedsFromSchemas() [][]byte {
+	s := pubschema.MustLoad()
+	var out [][]byte
+	for _, id := range s.IDs {
+		root, ok := s.Root(id)
+		if !ok || s.Kind(root) != "object" {
+			continue
+		}
+		doc := map[string]any{"$schema": id}
+		names, nodes := s.Props(root)
+		for _, name := range names {
+			if name == "$schema" {
+				continue
+			}
+			n := nodes[name]
+			switch s.Kind(n) {
+			case "array":
+				if it, ok := s.Items(n); ok {
+					doc[name] = []any{s.Sample(it, 0)}
+				}
+			case "map":
+				doc[name] = map[string]any{"abc": "ABC"}
+			default:
+				doc[name] = s.Sample(n, 0)
+			}
+		}
+		if raw, err := json.Marshal(doc); err == nil && len(raw) < 6000 {
+			out = append(out, raw)
+		}
+	}
+	return out
+}
